@@ -794,6 +794,8 @@ REVIEWED_NO_TABLE = {
     ("dialects.PostgreSQLQueryBuilder", "_for_update_of"): "table NAMES (strings), not tables",
     ("dialects.PostgreSQLQueryBuilder", "_return_star"): "bool flag (restored together with _returns, which IS visited, by the "
                                                          "tuple assignment `self._returns, self._return_star = saved` of 6170537)",
+    ("terms.ContainsCriterion", "_is_negated"): "bool flag (toggled by negate() since a8fde08: `not self._is_negated`)",
+    ("terms.ExistsCriterion", "_is_negated"): "bool flag (toggled by negate() since a8fde08)",
     ("dialects.VerticaQueryBuilder", "_hint"): "str", ("functions.Cast", "as_type"): "type name", ("functions.Convert", "encoding"): "str",
     ("queries.AliasedQuery", "name"): "str", ("queries.AliasedQuery", "query"): "rebuilt by QueryBuilder._with handling",
     ("queries.Join", "how"): "enum", ("queries.JoinOn", "collate"): "str",
